@@ -536,6 +536,13 @@ theorem prune_random_count (t : T) (sampled : List String) (hnd : t.tipNames.Nod
   rw [e1, e2] at c
   omega
 
+/-- the hypotheses of `pruneAll_induced` on two trees with different tip sets under `-c` (every tree
+    keeps the tips it shares with the compared tree), and of `prune_random_count` -/
+example : AllGood ⟨none, some tRooted, 0, ["zz"], false⟩ [t0, tRootedMulti] [] := by
+  simp only [AllGood]; decide
+
+example : t0.tipNames.Nodup ∧ ["b", "e"].Nodup ∧ ∀ n ∈ ["b", "e"], n ∈ t0.tipNames := by decide
+
 /-- `specificTips ref comp` are exactly the tips of `ref` that `comp` does not have. -/
 theorem specificTips_mem (ref comp : T) (n : String) :
     n ∈ specificTips ref comp ↔ n ∈ ref.tipNames ∧ n ∉ comp.tipNames := by
